@@ -156,6 +156,12 @@ func (s *session) SignalSubscribe(pkt *mqttp.Subscribe) (mqttp.IFace, error) {
 				reason = mqttp.QosFailure
 			} else {
 				reason = mqttp.ReasonCode(granted)
+				// retained messages are delivered at the lower of their own and the granted QoS
+				for _, rp := range retained {
+					if rp.QoS() > granted {
+						_ = rp.SetQoS(granted)
+					}
+				}
 				retainedPublishes = append(retainedPublishes, retained...)
 			}
 		} else {
